@@ -3,7 +3,7 @@ use ast::Program;
 use error::SplError;
 use std::ops::Range;
 use table::GlobalTable;
-use tokens::{Token, TokenStream};
+use tokens::{Token, TokenStream, TokenType};
 
 pub mod ast;
 pub mod error;
@@ -109,7 +109,15 @@ impl ErrorContainer for AnalyzedSource {
                 }
                 range => {
                     let tokens = &self.tokens[range];
-                    let start_pos = tokens.first().expect("Token slice is empty").range.start;
+                    // The comments in front of a construct belong to its tokens,
+                    // but the error lies on the construct itself.
+                    let start_pos = tokens
+                        .iter()
+                        .find(|token| !matches!(token.token_type, TokenType::Comment(_)))
+                        .or(tokens.first())
+                        .expect("Token slice is empty")
+                        .range
+                        .start;
                     let end_pos = tokens.last().expect("Token slice is empty").range.end;
                     SplError(start_pos..end_pos, error.1)
                 }
